@@ -281,6 +281,12 @@ def units():
             Unit("check_total_current[float64 acceptance, bounded]", "tdgl.solver.solver:validate_terminal_currents", run_accept_fp, props=["C01"], timeout=600, kind="bounded")]
 
 
+def replay_scope(unit, obl):
+    """the native replay picks its witness by obligation family"""
+    n = (obl or {}).get("name", "")
+    return "accept" if "accept" in n else ("requested" if any(w in n for w in ("requested", "J_scale", "density")) else "conservation")
+
+
 def replay(unit, obl):
     from checks import c01_native
     return c01_native.replay(unit, obl)
